@@ -357,6 +357,24 @@ func runC10(c *Ctx) {
 	}
 	msgsText := []string{"", "plain", "50% of \"x\"", "naïve ✓ 日本", "invalid name \"a%2Fb%2Fc\" %41 100%25", "%", "tab\there"}
 	id := 0
+	// replies of every small size with gzip negotiated on the front (the compressed frame is built in a pooled buffer: this runs FIRST, while the
+	// pool's buffers are still small — the 4 MiB message below leaves them large for the rest of the run)
+	for n := 0; n <= c.N(140, 600); n++ {
+		var outs [2]string
+		for k, conn := range []*grpc.ClientConn{bcc, fcc} {
+			id++
+			ctx, cancel := context.WithTimeout(metadata.NewOutgoingContext(context.Background(), metadata.Pairs("x-c10-id", fmt.Sprint("z", id), "x-c10-script", "0,0,-2", "x-c10-pad", strconv.Itoa(n))), 2*time.Second)
+			o := backFx.NewMsg("Reply")
+			err := conn.Invoke(ctx, "/"+fxPkg+".Back/U", backFx.NewMsg("Req"), o, grpc.UseCompressor("gzip"))
+			cancel()
+			outs[k] = fmt.Sprintf("%v data=%x", status.Code(err), sha256.Sum256(o.Get(o.Descriptor().Fields().ByName("data")).Bytes()))
+		}
+		in := fmt.Sprintf("U with gzip, backend replies %d incompressible bytes", n)
+		c.Eval("proxy-gzip", in, true)
+		if outs[0] != outs[1] {
+			c.SpecFail("proxy-gzip", in, "proxied: "+outs[1], "direct: "+outs[0], "C10/U/gzip-reply", "with gzip negotiated the client does not receive through the proxy what it receives directly")
+		}
+	}
 	earlyOK, lateSend := 0, 0
 	n := c.N(260, 5000)
 	for i := 0; i < n; i++ {
@@ -488,23 +506,6 @@ func runC10(c *Ctx) {
 		}
 	}
 
-	// replies of every small size with gzip negotiated on the front (the compressed frame is built in a pooled buffer)
-	for n := 0; n <= c.N(140, 600); n++ {
-		var outs [2]string
-		for k, conn := range []*grpc.ClientConn{bcc, fcc} {
-			id++
-			ctx, cancel := context.WithTimeout(metadata.NewOutgoingContext(context.Background(), metadata.Pairs("x-c10-id", fmt.Sprint("z", id), "x-c10-script", "0,0,-2", "x-c10-pad", strconv.Itoa(n))), 2*time.Second)
-			o := backFx.NewMsg("Reply")
-			err := conn.Invoke(ctx, "/"+fxPkg+".Back/U", backFx.NewMsg("Req"), o, grpc.UseCompressor("gzip"))
-			cancel()
-			outs[k] = fmt.Sprintf("%v data=%x", status.Code(err), sha256.Sum256(o.Get(o.Descriptor().Fields().ByName("data")).Bytes()))
-		}
-		in := fmt.Sprintf("U with gzip, backend replies %d incompressible bytes", n)
-		c.Eval("proxy-gzip", in, true)
-		if outs[0] != outs[1] {
-			c.SpecFail("proxy-gzip", in, "proxied: "+outs[1], "direct: "+outs[0], "C10/U/gzip-reply", "with gzip negotiated the client does not receive through the proxy what it receives directly")
-		}
-	}
 	c10HTTPStream(c, mux, backFx, &id)
 	// HTTP front: the request message must reach the backend whatever the body framing
 	for i := 0; i < c.N(40, 400); i++ {
